@@ -6,10 +6,15 @@
    explains; they are replayed on the real code by the conc profile and listed
    in known_findings.txt (the repair needs an atomic read-modify-write primitive
    on the Cache trait: an API change, not a small fix). What holds is proved:
-   run alone each command is the sequential function (C06/C07 then apply), and a
-   client CAS turns an interleaved change into 'key exists'. *)
-From MC Require Import Model.Base Model.Generated Model.Store Model.Memc Model.Conc Spec.Atomic
-  Proofs.StoreLemmas Proofs.SetLemmas Proofs.PC03 Proofs.PC04.
+   every history is equivalent to a one-at-a-time one PROVIDED no client changes
+   what a retrieval answers for a key while another client stands between the
+   read and the write of a read-modify-write on that key
+   (C04_atomic_without_interference: this delimits the finding exactly — each of
+   the four witnesses is such an interference); run alone each command is the
+   sequential function (C06/C07 then apply); a client CAS turns an interleaved
+   change into 'key exists'. *)
+From MC Require Import Model.Base Model.Generated Model.Store Model.Memc Model.Conc Spec.Atomic Spec.AtomicM
+  Proofs.StoreLemmas Proofs.SetLemmas Proofs.PC03 Proofs.PC04 Proofs.PC04b.
 
 Theorem C04_add_add_refuted :
   let ops := [[MAdd kx (rec_of [x41])]; [MAdd kx (rec_of [x42])]] in
@@ -48,6 +53,43 @@ Theorem C04_resurrect_refuted :
   lookup kx (snd (outcome 0 ops seq10 onex)) = None.
 Proof. exact resurrect_refuted. Qed.
 Print Assumptions C04_resurrect_refuted.
+
+(* the positive half. Any number of clients, each with any list of commands
+   (get / set / delete and all six read-modify-write commands) on any keys, any
+   initial store, any schedule that passes [ni_sched] — at no step does a client's
+   map call change what a retrieval answers for a key that another client has read
+   for a read-modify-write it has not written yet. Then a valid one-at-a-time
+   trace of Spec/AtomicM.v (each command atomic: look at the key, decide, store)
+   reproduces the final shared state and every client's answers in its own order. *)
+Theorem C04_atomic_without_interference :
+  forall now (opss : list (list mop)) (sched : list nat) (s0 : shared),
+  ni_sched now sched (map new_thread opss) s0 = true ->
+  let '(ts, s) := run_sched now (mprog_of now) sched (map new_thread opss) s0 in
+  exists evs, mvalid now evs s0 /\ mreplay now evs s0 = s /\
+    forall i t, nth_thread i ts = Some t ->
+      exists pending, mlins i evs = th_done t ++ pending /\ (length pending <= 1)%nat /\
+                      (th_cur t = None -> pending = []).
+Proof. exact atomic_without_interference. Qed.
+Print Assumptions C04_atomic_without_interference.
+
+(* the four refuted schedules are interferences; a schedule that overlaps an
+   increment with retrievals of its key and with an append on another key is not,
+   and gives the atomic answers *)
+Example C04_witnesses_interfere :
+  ni_sched 0 [0;1;0;1;0;1;0;1;0;1]%nat (map new_thread [[MAdd kx (rec_of [x41])]; [MAdd kx (rec_of [x42])]]) empty0 = false /\
+  ni_sched 0 [0;1;0;1;0;1;0;1;0;1;0;1]%nat (map new_thread [[MDelta true kx 0 0 1 0]; [MDelta true kx 0 0 1 0]]) five = false /\
+  ni_sched 0 [0;1;0;1;0;1;0;1;0;1;0;1]%nat (map new_thread [[MAppend kx 0 [x41]]; [MAppend kx 0 [x42]]]) onex = false /\
+  ni_sched 0 [0;0;1;1;1;0;0;0;0]%nat (map new_thread [[MReplace kx (rec_of [x52])]; [MBase (OpDel kx 0)]]) onex = false.
+Proof. vm_compute. repeat split; reflexivity. Qed.
+
+Example C04_nonvacuous :
+  let ops := [[MDelta true kx 0 0 1 0]; [MBase (OpGet kx); MBase (OpGet kx)]; [MAppend [x79] 0 [x21]]] in
+  let s0 := mkShared [(kx, mkRec 0 1 0 0 [x35]); ([x79], mkRec 0 2 0 0 [x68])] 3 in
+  let sched := [0;1;2;0;1;2;0;1;2;0;1;2;0;1;2;1;1;0;2;2]%nat in
+  ni_sched 0 sched (map new_thread ops) s0 = true /\
+  option_map r_val (lookup kx (snd (outcome 0 ops sched s0))) = Some [x36] /\
+  option_map r_val (lookup [x79] (snd (outcome 0 ops sched s0))) = Some [x68; x21].
+Proof. vm_compute. repeat split; reflexivity. Qed.
 
 (* run alone, the command's program is the sequential MemcStore function *)
 Theorem C04_atomic_when_alone_add : forall now k r s,
